@@ -281,6 +281,11 @@ def main(rec):
                 k += 1
                 lib = libs.build("s%d" % k, lang, [(s_, T)], s_["wraps"], options={"F_CFI": cfi})
                 cases.append({"lib": lib, "row": {"single_shape": s_["id"], "T": T, "F_CFI": cfi, "wraps": list(s_["wraps"])}})
+            # ... and with the C wrapper alone (what Fortran would have pulled in is not there)
+            if "c" in s_["wraps"] and len(s_["wraps"]) > 1 and (thorough or (k + len(cases)) % 2 == common.seed() % 2):
+                k += 1
+                lib = libs.build("s%d" % k, lang, [(s_, T)], ("c",))
+                cases.append({"lib": lib, "row": {"single_shape": s_["id"], "T": T, "F_CFI": False, "wraps": ["c"]}})
     # ownership / memory-management declarations (owner, deref, free_pattern, class-typed results), each alone
     from . import c06
     own = c06.single_declaration_libraries()
